@@ -5,7 +5,7 @@
    width parameter (stated, not hidden). *)
 From Coq Require Import List NArith Bool.
 From RC Require Import Base.Res Base.Wire Model.Negotiate Model.Nlri Gen.AttrRules Model.Attr Model.Update Gen.BuilderConsts
-     Model.Builder Proofs.C07Proofs Proofs.C07Msg Proofs.C06Proofs Proofs.C06Bytes.
+     Model.Builder Proofs.C07Proofs Proofs.C07Msg Proofs.C07Full Proofs.C06Proofs Proofs.C06Bytes.
 Import ListNotations.
 Open Scope N_scope.
 
@@ -85,6 +85,33 @@ Theorem c07_builder_partial : forall cfg b u k ap m bd1 bd2 m',
     a_mp_withdrawals m' u' = Ok (match bd_wd bd2 with Some w => Some (fam_code k, Some (map Ok w)) | None => None end).
 Proof. exact c07_builder_proof. Qed.
 Print Assumptions c07_builder_partial.
+
+(* the same with no hypothesis on the re-added NLRI: they are what the NLRI decoder produced from the octets of the message, and
+   every such value is well-formed, of the builder's family, with a path identifier exactly when the builder's NLRI type parses one
+   (c05_decoded_wellformed).  The type A of the builder = family [k], with path identifiers exactly when the session receives them
+   for [k].  What remains of "PARTIAL" is only the second point above: the attribute octets of the rebuilt message are characterised
+   through the attribute map (c07_attribute_map), not by decoding the rebuilt message as a whole. *)
+Theorem c07_builder : forall cfg b u k m bd1 bd2 m',
+  parse_update cfg b = Ok u -> wf_bytes b -> N.of_nat (3 * length b) <= 65535 ->
+  a_pamap b u = Ok m ->
+  let ap := rx_addpath cfg (fam_code k) in
+  add_announcements_from_pdu b u ap (mkB k None None m) = Ok bd1 -> add_withdrawals_from_pdu b u ap bd1 = Ok bd2 ->
+  into_message cfg bd2 = Ok (MOk m') ->
+  bd_attrs bd2 = m /\ bd_fam bd2 = k /\
+  exists u', parse_update cfg m' = Ok u' /\ (length m' <= bc_max_pdu)%nat /\ a_length u' = length m' /\
+    a_conv_withdrawals m' u' = Some [] /\ a_conv_announcements m' u' = Some [] /\
+    a_mp_announcements m' u' = Ok (match bd_ann bd2 with Some r => Some (fam_code k, Some (map Ok (r_ann r))) | None => None end) /\
+    a_mp_withdrawals m' u' = Ok (match bd_wd bd2 with Some w => Some (fam_code k, Some (map Ok w)) | None => None end).
+Proof. exact c07_builder_full_proof. Qed.
+Print Assumptions c07_builder.
+
+(* and the NLRI the seeded builder holds are exactly values of that kind *)
+Theorem c07_readded_wellformed : forall b u k ap m bd1 bd2,
+  wf_bytes b ->
+  add_announcements_from_pdu b u ap (mkB k None None m) = Ok bd1 -> add_withdrawals_from_pdu b u ap bd1 = Ok bd2 ->
+  Forall (nlri_ok k ap) (ann_of bd2) /\ Forall (nlri_ok k ap) (wd_of bd2).
+Proof. exact readded_ok. Qed.
+Print Assumptions c07_readded_wellformed.
 
 (* the NLRI a builder receives from the message are exactly the items of the typed iterator *)
 Theorem c07_readded_announcements : forall b u ap bd bd1,
